@@ -25,4 +25,4 @@ require (
 	golang.org/x/text v0.23.0 // indirect
 )
 
-replace github.com/siyul-park/uniflow => /tmp/s/mrepo
+replace github.com/siyul-park/uniflow => /repo
